@@ -58,7 +58,7 @@ class Actor:
         self.result: Any = None
         self.error: Optional[BaseException] = None
         self.trace: List[Tuple[str, str]] = []
-        self.inject: Optional[Callable[[str, str, int], None]] = None   # fault hook(op, path, index)
+        self.inject: Optional[Callable[[str, str, int, tuple], Any]] = None   # fault hook(op, path, index, phase)
         self.nyield = 0
         self.uuid_rng = random.Random(hash(name) & 0xFFFFFFFF)
 
@@ -127,8 +127,18 @@ class Scheduler:
         a.nyield += 1
         a.trace.append((op, path))
         self.log.append(entry)
+        entry["index"] = idx
         if a.inject is not None:
-            a.inject(op, path, idx)     # may raise (fault / interrupt / Killed)
+            # inject(op, path, idx, phase) -> None | ("before", exc) | ("after", exc)
+            directive = a.inject(op, path, idx, phase)
+            if directive is not None:
+                kind, exc = directive
+                entry["fault"] = kind
+                if kind == "before":
+                    entry["performed"] = False
+                    entry["result"] = ("raised", type(exc).__name__)
+                    raise exc
+                entry["after_exc"] = exc
         return entry
 
     def block(self, what: str) -> None:
@@ -279,10 +289,14 @@ class CoopLockProvider:
     """Wraps a real LockProvider (LocalLockProvider over a real flock) so that a busy lock parks the
     actor instead of spinning; the real non-blocking acquisition is what decides."""
 
+    instances: List["CoopLockProvider"] = []
+
     def __init__(self, sched: Scheduler, real: Any, name: str = "dlock"):
         self.sched = sched
         self.real = real
         self.name = name
+        CoopLockProvider.instances.append(self)
+        del CoopLockProvider.instances[:-64]
 
     def acquire(self) -> bool:
         while True:
@@ -303,9 +317,11 @@ class CoopLockProvider:
         return bool(self.real.acquire())
 
     def release(self) -> None:
-        self.sched.yield_point("LockRel", self.name)
+        e = self.sched.yield_point("LockRel", self.name)
         self.real.release()
         self.sched.unblock_all(self.name)
+        if e.get("after_exc") is not None:
+            raise e.pop("after_exc")
 
     def is_held(self) -> bool:
         e = self.sched.yield_point("Fence", self.name)
@@ -355,6 +371,9 @@ def instrument_backend(sched: Scheduler, backend: Any, lock_mode: str = "real", 
             except BaseException as ex:
                 e["result"] = ("raised", type(ex).__name__)
                 raise
+            if e.get("after_exc") is not None:
+                e["result"] = ("raised-after-effect", type(e["after_exc"]).__name__)
+                raise e.pop("after_exc")
             if __m in ("read_file", "read_file_with_etag") and str(path).endswith("version-hint.text"):
                 e["result"] = r[0] if isinstance(r, tuple) else r
             elif __m == "exists":
